@@ -3,7 +3,10 @@
 //! Real `TensorStore::{save_snapshot, load_snapshot, save_snapshot_compressed,
 //! load_snapshot_compressed, snapshot_bytes, restore_from_bytes}`,
 //! `snapshot::save_v3_uncompressed` and `SlabRouter::{to_bytes, from_bytes,
-//! save_to_file, load_from_file}` on the simulated disk.
+//! save_to_file, load_from_file}` on the simulated disk; the store under test may
+//! be log-backed (`TensorStore::open_durable` / `SlabRouter::with_wal_and_config`,
+//! log file on the simulated disk) and `checkpoint(path)` is one more save form
+//! (default file format) with the same two clauses.
 //!
 //! A case is a program of fill steps (key-addressed entries of every value kind
 //! and key class, relational slab rows through the slab API and through
@@ -33,7 +36,7 @@ use std::sync::Arc;
 use tensor_store::entity_index::EntityId;
 use tensor_store::relational_slab::{ColumnDef, ColumnType, ColumnValue, RowId, TableSchema};
 use tensor_store::{
-    ChunkHash, EdgeId, ScalarValue, SlabRouter, SlabRouterConfig, SparseVector, TensorData, TensorStore, TensorValue,
+    ChunkHash, EdgeId, ScalarValue, SlabRouter, SlabRouterConfig, SparseVector, SyncMode, TensorData, TensorStore, TensorValue, WalConfig,
 };
 
 const NODE: &str = "n0";
@@ -52,6 +55,10 @@ pub enum Fmt {
     /// `save_snapshot_compressed` with `CompressionConfig::default()` (q=0) or
     /// `CompressionConfig::balanced(384)` (q=1)
     Quant { q: u8 },
+    /// `TensorStore::checkpoint(path)` / `SlabRouter::checkpoint(path)`: the
+    /// default file format written by the checkpoint call (which also syncs,
+    /// marks and truncates the log of a log-backed store)
+    Checkpoint,
 }
 
 impl Fmt {
@@ -61,6 +68,7 @@ impl Fmt {
             Fmt::Uncompressed => "file-uncompressed",
             Fmt::Quant { q: 0 } => "quantising-default",
             Fmt::Quant { .. } => "quantising-tt",
+            Fmt::Checkpoint => "checkpoint",
         }
     }
     fn is_quant(self) -> bool {
@@ -95,6 +103,12 @@ pub enum Step {
     /// `n` keys that all carry the same value (a very regular store)
     PutSame { class: u8, start: u16, n: u16, kind: u8, u: u32 },
     Del { class: u8, idx: u16 },
+    /// `put_durable` (logged first on a log-backed store; a plain put otherwise)
+    PutD { class: u8, idx: u16, kind: u8, u: u32 },
+    /// `delete_durable`
+    DelD { class: u8, idx: u16 },
+    /// `wal_sync` (no-op on a store without a log)
+    Sync,
     /// create table t (engine: through RelationalEngine, else slab API)
     Table { t: u8, engine: bool },
     Rows { t: u8, engine: bool, n: u16, u: u32 },
@@ -160,6 +174,10 @@ pub struct Case {
     /// (the loaded store answers `get`/`exists` through a rebuilt Bloom filter)
     #[serde(default)]
     pub bloom_loader: bool,
+    /// 0 = store without a log; 1..=3 = log-backed store (`open_durable` on the
+    /// simulated disk) with sync mode immediate / batched(3) / manual
+    #[serde(default)]
+    pub wal: u8,
 }
 
 pub struct C07;
@@ -447,6 +465,8 @@ fn col_to_value(c: &ColumnValue) -> TensorValue {
 
 /// marker field of a `K|` dump entry whose key `scan` lists but `TensorStore::get` refuses
 const STORE_GET_FAILS: &str = "<listed-by-scan-but-store-get-fails>";
+/// marker field of a `K|` dump entry whose key `scan` lists but the router's own `get` refuses
+const ROUTER_GET_FAILS: &str = "<listed-by-scan-but-get-fails>";
 
 fn str_data(field: &str, s: String) -> TensorData {
     let mut d = TensorData::new();
@@ -502,7 +522,16 @@ fn dump_router(r: &SlabRouter, blob_hashes: &[u64], max_edge: u64) -> Dump {
         }
         let d = match r.get(&k) {
             Ok(d) => d,
-            Err(_) => str_data("<listed-by-scan-but-get-fails>", String::new()),
+            Err(_) if !k.starts_with("emb:") && !r.exists(&k) && r.index.contains(&k) => {
+                // A key of another class left in the entity index (put_durable of a value with
+                // an `_embedding` field registers it there; deleting the key does not
+                // unregister it): listed by scan(), but it does not exist, has no field and no
+                // value - nothing the round-trip clause speaks of. Kept aside in a section
+                // that only the exact (file) comparisons of the crash clause see.
+                out.insert(format!("Z|listed-but-absent|{k}"), TensorData::new());
+                continue;
+            },
+            Err(_) => str_data(ROUTER_GET_FAILS, String::new()),
         };
         out.insert(format!("K|{k}"), d);
     }
@@ -542,18 +571,26 @@ fn dump_router(r: &SlabRouter, blob_hashes: &[u64], max_edge: u64) -> Dump {
     // E
     let mut ents = r.index.scan_prefix("");
     ents.sort();
+    let mut bare = 0usize;
     for (k, id) in ents {
         let mut d = TensorData::new();
         match r.embeddings.get(id) {
             Some(v) => d.set("slab", TensorValue::Vector(v)),
+            None if !k.starts_with("emb:") => {
+                // an index entry of a key outside the embedding class that leads to no
+                // vector (see above) is no embedding and no key, field or value
+                out.insert(format!("Z|index-entry-without-vector|{k}"), TensorData::new());
+                bare += 1;
+                continue;
+            },
             None => d.set("slab", sc(ScalarValue::Null)),
         }
         out.insert(format!("E|{k}"), d);
     }
     // embeddings that no key leads to (left behind in the slab) show in the counts
-    if r.index.len() > 0 || r.embeddings.len() > 0 {
+    if r.index.len() > bare || r.embeddings.len() > 0 {
         let mut d = TensorData::new();
-        d.set("index_len", sc(ScalarValue::Int(r.index.len() as i64)));
+        d.set("index_len", sc(ScalarValue::Int((r.index.len() - bare) as i64)));
         d.set("slab_len", sc(ScalarValue::Int(r.embeddings.len() as i64)));
         out.insert("E|count".into(), d);
     }
@@ -858,10 +895,51 @@ impl Live {
             Live::Router(_) => None,
         }
     }
+    fn has_wal(&self) -> bool {
+        self.router().has_wal()
+    }
+}
+
+fn small_config() -> SlabRouterConfig {
+    SlabRouterConfig { embedding_dim: SMALL_DIM, blob_segment_size: 256, ..SlabRouterConfig::default() }
 }
 
 fn small_router() -> SlabRouter {
-    SlabRouter::with_config(&SlabRouterConfig { embedding_dim: SMALL_DIM, blob_segment_size: 256, ..SlabRouterConfig::default() })
+    SlabRouter::with_config(&small_config())
+}
+
+/// log configuration of a log-backed store under test (`Case::wal` 1..=3)
+fn wal_config(wal: u8) -> WalConfig {
+    WalConfig {
+        sync_mode: match wal {
+            2 => SyncMode::Batched { max_entries: 3 },
+            3 => SyncMode::Manual,
+            _ => SyncMode::Immediate,
+        },
+        ..WalConfig::default()
+    }
+}
+
+/// The store a program (or a new process after a crash that found no snapshot)
+/// starts on: with or without a log, as the case says.
+fn fresh_live(ctx: &RunCtx, case: &Case, dir: &str) -> Live {
+    if case.wal != 0 {
+        let wal = format!("{dir}/wal.log");
+        let r = if case.cfg == 1 {
+            SlabRouter::with_wal_and_config(&wal, wal_config(case.wal), &small_config()).map(|r| Live::Router(Box::new(r)))
+        } else {
+            TensorStore::open_durable(&wal, wal_config(case.wal)).map(Live::Store)
+        };
+        match r {
+            Ok(l) => return l,
+            Err(e) => ctx.event(&format!("opening a log-backed store failed ({e}); the program runs on a store without a log")),
+        }
+    }
+    if case.cfg == 1 {
+        Live::Router(Box::new(small_router()))
+    } else {
+        Live::Store(TensorStore::new())
+    }
 }
 
 struct Trial<'a> {
@@ -885,6 +963,8 @@ struct Trial<'a> {
     receiver: Option<(TensorStore, SideBook)>,
     /// path -> what loading the last completed snapshot at that path yields
     saved: BTreeMap<String, Dump>,
+    /// path of the last completed checkpoint of the live store object (coverage probe only)
+    last_checkpoint: Option<String>,
     pending: Vec<Violation>,
     observations: Vec<String>,
     crashes_fired: u64,
@@ -929,7 +1009,7 @@ impl<'a> Trial<'a> {
         let root = ctx.node_dir(NODE);
         let dir = format!("{root}/t{tag}");
         let _ = std::fs::create_dir_all(format!("{dir}/ref"));
-        let live = if case.cfg == 1 { Live::Router(Box::new(small_router())) } else { Live::Store(TensorStore::new()) };
+        let live = fresh_live(ctx, case, &dir);
         // (the fill programs of receiving stores count: what they leave behind must be looked for)
         let uses_rel = all_steps(&case.steps).iter().any(|s| matches!(s, Step::Table { engine: true, .. }));
         let uses_graph = all_steps(&case.steps).iter().any(|s| matches!(s, Step::GNode { .. }));
@@ -949,6 +1029,7 @@ impl<'a> Trial<'a> {
             uses_graph,
             receiver: None,
             saved: BTreeMap::new(),
+            last_checkpoint: None,
             pending: Vec::new(),
             observations: Vec::new(),
             crashes_fired: 0,
@@ -956,7 +1037,13 @@ impl<'a> Trial<'a> {
         }
     }
 
-    fn cleanup(&self) {
+    fn cleanup(&mut self) {
+        if self.live.has_wal() {
+            // close the log before its directory goes
+            self.rel = None;
+            self.gr = None;
+            self.live = Live::Router(Box::new(small_router()));
+        }
         let _ = std::fs::remove_dir_all(&self.dir);
         self.ctx.forget_prefix(&self.dir);
     }
@@ -981,6 +1068,12 @@ impl<'a> Trial<'a> {
                 // every key the store lists must also be readable through the store
                 for (k, v) in d.range_mut("K|".to_string()..).take_while(|(k, _)| k.starts_with("K|")) {
                     let key = &k[2..];
+                    if v.get(ROUTER_GET_FAILS).is_some() {
+                        // the router itself lists the key without holding a value for it (a
+                        // key left in the entity index): the same on a store with and without a
+                        // filter, and nothing the filter decides
+                        continue;
+                    }
                     match s.get(key) {
                         Ok(g) => {
                             if !s.exists(key) {
@@ -1071,6 +1164,40 @@ impl<'a> Trial<'a> {
             (Fmt::Uncompressed, l) => tensor_store::snapshot::save_v3_uncompressed(l.router(), path).map_err(|e| e.to_string()),
             (Fmt::Quant { q }, Live::Store(s)) => s.save_snapshot_compressed(path, Self::quant_config(q)).map_err(|e| e.to_string()),
             (Fmt::Quant { .. }, Live::Router(_)) => Err("quantising format needs a TensorStore".into()),
+            (Fmt::Checkpoint, Live::Store(s)) => s.checkpoint(path).map(|_| ()).map_err(|e| e.to_string()),
+            (Fmt::Checkpoint, Live::Router(r)) => r.checkpoint(Path::new(path)).map(|_| ()).map_err(|e| e.to_string()),
+        }
+    }
+
+    /// The process that starts after a crash of a log-backed store: the snapshot
+    /// at `path` (if given) under a NEW, empty log. The old log is put aside
+    /// unread: what replaying it would add is C02's subject, not judged here.
+    fn restart_log_backed(&self, path: Option<&str>) -> Option<Live> {
+        if self.case.wal == 0 {
+            return None;
+        }
+        let wal = format!("{}/wal.log", self.dir);
+        for f in [wal.clone(), format!("{wal}.1"), format!("{wal}.2")] {
+            let _ = std::fs::remove_file(f);
+        }
+        let Some(path) = path else {
+            return Some(fresh_live(self.ctx, self.case, &self.dir));
+        };
+        let cfg = wal_config(self.case.wal);
+        let r = if self.case.cfg == 1 {
+            SlabRouter::recover(&wal, &cfg, Some(Path::new(path))).map(|r| Live::Router(Box::new(r))).map_err(|e| e.to_string())
+        } else {
+            TensorStore::recover(&wal, &cfg, Some(Path::new(path))).map(Live::Store).map_err(|e| e.to_string())
+        };
+        match r {
+            Ok(l) => {
+                self.ctx.probe("restart_log_backed_from_snapshot");
+                Some(l)
+            },
+            Err(e) => {
+                self.ctx.event(&format!("restart of the log-backed store from the snapshot failed ({e}); continuing on the loaded store"));
+                None
+            },
         }
     }
 
@@ -1107,6 +1234,13 @@ impl<'a> Trial<'a> {
     /// equals the original across all data classes".
     fn check_roundtrip(&mut self, what: &str, name: &str, original: &Dump, loaded: &Dump, e: Eqv) {
         self.verified_pairs += 1;
+        if original.keys().any(|k| k.starts_with("Z|listed-but-absent|")) {
+            self.ctx.probe("store_lists_a_deleted_key");
+            let o = "observation(outside C07: the store under test lists, through scan(), a key that was deleted and does not exist - put_durable of a non-embedding-class key with an `_embedding` field registers the key in the entity index, delete does not unregister it; such keys are not compared)".to_string();
+            if !self.observations.contains(&o) {
+                self.observations.push(o);
+            }
+        }
         if original.keys().any(|k| k.starts_with("T|") && k.contains("|row|")) {
             self.ctx.probe("relational_rows_in_snapshot");
         }
@@ -1152,6 +1286,32 @@ impl<'a> Trial<'a> {
                         let _ = r.delete(&key);
                     },
                 }
+            },
+            Step::PutD { class, idx, kind, u } => {
+                let key = key_for(*class, *idx);
+                let val = value_for(*kind, *u);
+                match &self.live {
+                    Live::Store(s) => {
+                        let _ = s.put_durable(key, val);
+                    },
+                    Live::Router(r) => {
+                        let _ = r.put_durable(&key, val);
+                    },
+                }
+            },
+            Step::DelD { class, idx } => {
+                let key = key_for(*class, *idx);
+                match &self.live {
+                    Live::Store(s) => {
+                        let _ = s.delete_durable(&key);
+                    },
+                    Live::Router(r) => {
+                        let _ = r.delete_durable(&key);
+                    },
+                }
+            },
+            Step::Sync => {
+                let _ = self.live.router().wal_sync();
             },
             Step::Table { t, engine } => {
                 if *engine {
@@ -1429,7 +1589,9 @@ impl<'a> Trial<'a> {
     /// What a complete, uninterrupted snapshot of the live store yields when loaded.
     fn clean_reference(&mut self, fmt: Fmt, name: &str) -> Result<Dump, String> {
         let rp = format!("{}/ref/{name}", self.dir);
-        self.save(fmt, &self.live, &rp)?;
+        // a checkpoint writes the default file format; the reference must not touch the log
+        let save_fmt = if fmt == Fmt::Checkpoint { Fmt::Default } else { fmt };
+        self.save(save_fmt, &self.live, &rp)?;
         let l = self.load(fmt, &rp)?;
         let d = self.full_dump_of(&l);
         let _ = std::fs::remove_file(&rp);
@@ -1461,6 +1623,21 @@ impl<'a> Trial<'a> {
             // ---- no crash in this save
             let verify = reference.is_none();
             let original = if verify { Some(self.full_dump()) } else { None };
+            if fmt == Fmt::Checkpoint && self.live.has_wal() {
+                ctx.probe("checkpoint_of_log_backed_store");
+                let st = self.live.router().wal_status();
+                let log_empty = st.as_ref().is_some_and(|s| s.size_bytes == 0);
+                ctx.event(&format!("{what}: log holds {} entries before the checkpoint", st.map(|s| s.entry_count).unwrap_or(0)));
+                if !log_empty {
+                    ctx.probe("checkpoint_with_logged_changes");
+                } else if let (Some(o), true) = (&original, self.last_checkpoint.as_deref() == Some(path.as_str())) {
+                    // changed through calls that are not logged only, since this store's
+                    // previous checkpoint to the same path
+                    if self.saved.get(&path).is_some_and(|prev| !maps_equiv(prev, o, TOL)) {
+                        ctx.probe("checkpoint_again_with_empty_log_after_unlogged_changes");
+                    }
+                }
+            }
             if record.is_some() {
                 ctx.start_sys_recording();
             }
@@ -1502,6 +1679,9 @@ impl<'a> Trial<'a> {
             };
             if let Some(rec) = record {
                 rec.push(SaveRec { step: i, sys, reference: Some(loaded_dump.clone()) });
+            }
+            if fmt == Fmt::Checkpoint {
+                self.last_checkpoint = Some(path.clone());
             }
             self.saved.insert(path, loaded_dump);
             return Outcome::Ok;
@@ -1553,6 +1733,13 @@ impl<'a> Trial<'a> {
                     }
                 },
                 ("rename", _) => ctx.probe("crash_before_rename"),
+                // "every mutating syscall of the checkpoint, incl. those on the log"
+                _ if f.starts_with("wal.log") => {
+                    ctx.probe("crash_at_log_syscall_of_checkpoint");
+                    if Path::new(&temp).exists() || !Path::new(&path).exists() {
+                        ctx.probe("crash_at_log_syscall_before_checkpoint_rename");
+                    }
+                },
                 _ => {},
             }
         }
@@ -1562,6 +1749,7 @@ impl<'a> Trial<'a> {
         self.rel = None;
         self.gr = None;
         self.receiver = None;
+        self.last_checkpoint = None;
         self.live = Live::Router(Box::new(SlabRouter::new()));
         let power_loss = self.case.observe == 1;
         let seed_cut = c.nth.wrapping_mul(31).wrapping_add(c.bytes.unwrap_or(0) as u64);
@@ -1643,15 +1831,15 @@ impl<'a> Trial<'a> {
                 return Outcome::Bad(v);
             }
         }
-        // restart: the new process works on what it loaded (or on an empty store)
+        // restart: the new process works on what it loaded (or on an empty store); a
+        // log-backed store comes back log-backed, on the snapshot it loaded
         self.live = match next_live {
-            Some(l) => l,
+            Some(l) => self.restart_log_backed(Some(&path)).unwrap_or(l),
             None => {
                 self.saved.remove(&path);
-                if self.case.cfg == 1 {
-                    Live::Router(Box::new(small_router()))
-                } else {
-                    Live::Store(TensorStore::new())
+                match self.restart_log_backed(None) {
+                    Some(l) => l,
+                    None => fresh_live(ctx, self.case, &self.dir),
                 }
             },
         };
@@ -1691,6 +1879,9 @@ impl<'a> Trial<'a> {
                         let original = self.full_dump();
                         self.check_roundtrip(&format!("{what} re-save after crash"), name, &original, &ld2, Self::eqv(fmt));
                         self.saved.insert(path.clone(), ld2);
+                        if fmt == Fmt::Checkpoint {
+                            self.last_checkpoint = Some(path.clone());
+                        }
                     }
                 },
             },
@@ -1921,7 +2112,7 @@ impl Scenario for C07 {
             steps.push(Step::Save { fmt: if rng.chance(3, 4) { Fmt::Default } else { Fmt::Uncompressed }, p: 0 });
             steps.push(Step::Put { class: 0, idx: 0, kind: rng.below(10) as u8, u: nu() });
             steps.push(Step::Save { fmt: Fmt::Default, p: 0 });
-            return Case { cfg: 0, observe: 0, offsets: 2, steps, mode: Mode::Chain(Vec::new()), bloom_loader: false };
+            return Case { cfg: 0, observe: 0, offsets: 2, steps, mode: Mode::Chain(Vec::new()), bloom_loader: false, wal: 0 };
         }
         if size > 0 {
             let (lo, hi) = if size == 1 { (150, 500) } else { (1500, 3500) };
@@ -2016,12 +2207,34 @@ impl Scenario for C07 {
             _ => 4,
         };
         let bloom_loader = cfg == 0 && rng.chance(1, 5);
-        Case { cfg, observe, offsets, steps, mode, bloom_loader }
+        // the store under test is log-backed in two of five programs; some of its
+        // key-addressed puts/deletes then go through the logged calls. `checkpoint`
+        // takes the place of some default-family file saves (more often on a
+        // log-backed store; on a store without a log it is a plain save)
+        let wal = if rng.chance(2, 5) { 1 + rng.below(3) as u8 } else { 0 };
+        let (cn, cd) = if wal != 0 { (3, 5) } else { (1, 8) };
+        for s in &mut steps {
+            match s {
+                Step::Put { class, idx, kind, u } if wal != 0 && rng.chance(1, 3) => {
+                    *s = Step::PutD { class: *class, idx: *idx, kind: *kind, u: *u };
+                },
+                Step::Del { class, idx } if wal != 0 && rng.chance(1, 3) => {
+                    *s = Step::DelD { class: *class, idx: *idx };
+                },
+                Step::Save { fmt, .. } if !fmt.is_quant() && rng.chance(cn, cd) => *fmt = Fmt::Checkpoint,
+                _ => {},
+            }
+        }
+        if wal != 0 && rng.chance(1, 3) {
+            let at = rng.usize_below(steps.len() + 1);
+            steps.insert(at, Step::Sync);
+        }
+        Case { cfg, observe, offsets, steps, mode, bloom_loader, wal }
     }
 
     fn run(&self, case: &Case, ctx: &Arc<RunCtx>) -> RunOut {
         let mut out = RunOut::default();
-        ctx.fp(&format!("cfg{}:obs{}:{}", case.cfg, case.observe, matches!(case.mode, Mode::Enumerate)));
+        ctx.fp(&format!("cfg{}:obs{}:{}:wal{}", case.cfg, case.observe, matches!(case.mode, Mode::Enumerate), case.wal));
         for s in &case.steps {
             ctx.fp(match s {
                 Step::Save { fmt, .. } => fmt.name(),
@@ -2046,6 +2259,8 @@ impl Scenario for C07 {
                 Step::Emb { .. } => "emb",
                 Step::TEdge { .. } => "tedge",
                 Step::Blob { .. } => "blob",
+                Step::PutD { .. } | Step::DelD { .. } => "logged",
+                Step::Sync => "sync",
                 _ => "fill",
             });
         }
@@ -2098,7 +2313,10 @@ impl Scenario for C07 {
                     for (k, ev) in rec.sys.iter().enumerate() {
                         points.push((k as u64, None));
                         if ev.kind == "write" {
-                            for b in sample_offsets(ev.len, case.offsets as usize) {
+                            // "every truncation point of the temporary file"; a write to the log
+                            // of a checkpointing store is cut at a few offsets only
+                            let want = if ev.path.ends_with(".tmp") { case.offsets as usize } else { (case.offsets as usize).min(3) };
+                            for b in sample_offsets(ev.len, want) {
                                 points.push((k as u64, Some(b)));
                             }
                         }
@@ -2150,6 +2368,16 @@ impl Scenario for C07 {
             c.steps = steps;
             v.push(c);
         }
+        if case.wal != 0 {
+            let mut c = case.clone();
+            c.wal = 0;
+            v.push(c);
+            if case.wal != 1 {
+                let mut c = case.clone();
+                c.wal = 1;
+                v.push(c);
+            }
+        }
         if let Mode::Chain(specs) = &case.mode {
             for s in drop_chunks(specs) {
                 let mut c = case.clone();
@@ -2186,6 +2414,9 @@ impl Scenario for C07 {
                 Step::Rows { t, engine, n, u } if *n > 1 => Some(Step::Rows { t: *t, engine: *engine, n: n / 2, u: *u }),
                 Step::Put { class, idx, kind, u } if *kind != 2 => Some(Step::Put { class: *class, idx: *idx, kind: 2, u: *u }),
                 Step::Blob { len, u } if *len > 0 => Some(Step::Blob { len: 0, u: *u }),
+                Step::PutD { class, idx, kind, u } => Some(Step::Put { class: *class, idx: *idx, kind: *kind, u: *u }),
+                Step::DelD { class, idx } => Some(Step::Del { class: *class, idx: *idx }),
+                Step::Save { fmt: Fmt::Checkpoint, p } => Some(Step::Save { fmt: Fmt::Default, p: *p }),
                 Step::Bytes { form, target, tcfg, reuse } if *reuse || *tcfg != 0 => {
                     Some(Step::Bytes { form: *form, target: target.clone(), tcfg: if *reuse { *tcfg } else { 0 }, reuse: false })
                 },
@@ -2226,17 +2457,23 @@ impl Scenario for C07 {
             "restore_over_relational_tables",
             "restore_over_blob_chunks",
             "restore_over_deleted_entities",
+            "checkpoint_of_log_backed_store",
+            "checkpoint_with_logged_changes",
+            "checkpoint_again_with_empty_log_after_unlogged_changes",
+            "crash_at_log_syscall_of_checkpoint",
+            "crash_at_log_syscall_before_checkpoint_rename",
+            "restart_log_backed_from_snapshot",
         ]
     }
 
     fn rule(&self) -> String {
-        "A case is a generated program of fill steps (key-addressed puts/deletes over 20 value kinds and 11 key classes, bulk puts up to 3500 keys, relational slab tables/rows/updates/deletes/indexes through the slab API and through RelationalEngine, full-dimension embeddings on emb: keys, GraphEngine nodes/edges, GraphTensor slab edges with edge data, blob-log chunks), Save{zstd | uncompressed | quantising(default|tensor-train)} steps to two v3 paths and one quantising path, and bytes-form round trips (SlabRouter::to_bytes/from_bytes, snapshot_bytes/restore_from_bytes into a new store and into a used store: the receiving store runs a generated fill program of its own first - any fill step kind, plus more steps on every slab the source has used: other tables/rows, graph-tensor edges of other types in other orders and deleted edges, blob chunks, embeddings and deleted entities - is built with or without a Bloom filter, and may be the store that received an earlier restore of the same program; every store-level program has at least one bytes-form step); the graph-tensor dump names, per edge id, endpoints, direction flag and type name; one in seven cases uses a bare SlabRouter with embedding_dim 8. Enumerate mode: a dry run loads every saved snapshot back and compares it with the live store (round-trip clause), then every mutating syscall boundary of every save (temp-file create/truncate, header write, body write, rename, and the point right after the rename) and sampled byte offsets inside every write are each taken as a process-crash point (inner_enumerated_points counts these executions), each followed by load, comparison with the complete previous and complete new snapshot, a second save over the leftover temp file, load, and the rest of the program on the loaded store. Chain mode: 1-2 seeded crashes in one execution. Non-trivial: at least one save/load pair was compared or a crash fired. Distinct: hash of (configuration, step-kind sequence, crash sites).".into()
+        "A case is a generated program of fill steps (key-addressed puts/deletes over 20 value kinds and 11 key classes, bulk puts up to 3500 keys, relational slab tables/rows/updates/deletes/indexes through the slab API and through RelationalEngine, full-dimension embeddings on emb: keys, GraphEngine nodes/edges, GraphTensor slab edges with edge data, blob-log chunks), Save{zstd | uncompressed | quantising(default|tensor-train)} steps to two v3 paths and one quantising path, and bytes-form round trips (SlabRouter::to_bytes/from_bytes, snapshot_bytes/restore_from_bytes into a new store and into a used store: the receiving store runs a generated fill program of its own first - any fill step kind, plus more steps on every slab the source has used: other tables/rows, graph-tensor edges of other types in other orders and deleted edges, blob chunks, embeddings and deleted entities - is built with or without a Bloom filter, and may be the store that received an earlier restore of the same program; every store-level program has at least one bytes-form step); the graph-tensor dump names, per edge id, endpoints, direction flag and type name; one in seven cases uses a bare SlabRouter with embedding_dim 8. In two of five cases the store under test is log-backed (TensorStore::open_durable / SlabRouter::with_wal_and_config on the simulated disk, sync mode immediate | batched(3) | manual): a third of its key-addressed puts/deletes go through put_durable/delete_durable, the rest of the fill (plain put/delete, cache keys, slab rows, graph-tensor edges, blob chunks) is not logged, an occasional wal_sync step; checkpoint(path) is a further save form (default file format) that replaces three of five default-family file saves of a log-backed store and one of eight of a store without a log, judged by the same round-trip clause (load_snapshot(path) equals the live store at the moment checkpoint returned) and the same crash clause, where every mutating syscall of the checkpoint including those on the log (sync before, marker append, truncation after the rename) is a crash point and the snapshot path must hold the complete previous or the complete new snapshot; the process restarted after a crash of a log-backed store gets the loaded snapshot under a new empty log (the old log is not replayed: recovery is C02's subject). Enumerate mode: a dry run loads every saved snapshot back and compares it with the live store (round-trip clause), then every mutating syscall boundary of every save (temp-file create/truncate, header write, body write, rename, and the point right after the rename) and sampled byte offsets inside every write are each taken as a process-crash point (inner_enumerated_points counts these executions), each followed by load, comparison with the complete previous and complete new snapshot, a second save over the leftover temp file, load, and the rest of the program on the loaded store. Chain mode: 1-2 seeded crashes in one execution. Non-trivial: at least one save/load pair was compared or a crash fired. Distinct: hash of (configuration, step-kind sequence, crash sites).".into()
     }
 
     fn components(&self) -> Value {
         json!({
             "real": [
-                "tensor_store::TensorStore (save_snapshot, load_snapshot, save_snapshot_compressed, load_snapshot_compressed, snapshot_bytes, restore_from_bytes)",
+                "tensor_store::TensorStore (save_snapshot, load_snapshot, save_snapshot_compressed, load_snapshot_compressed, snapshot_bytes, restore_from_bytes, open_durable, put_durable, delete_durable, wal_sync, checkpoint; recover only to reopen a snapshot under a new empty log)", "TensorWal (append, fsync, truncate) as driven by checkpoint",
                 "tensor_store::snapshot (save_v3, save_v3_uncompressed, load)", "SlabRouter (snapshot/restore, to_bytes/from_bytes, save_to_file/load_from_file) and all slabs",
                 "relational_engine::RelationalEngine (create_table, insert, delete_rows, create_index, select, get_schema)", "graph_engine::GraphEngine (create_node, create_edge, get_node, get_edge)",
                 "tensor_compress (tensor-train, quantising snapshot format)", "std::fs"
@@ -2251,6 +2488,7 @@ impl Scenario for C07 {
             "process-crash model: every byte handed to write() survives, rename is atomic; power loss (temp file never fsynced) runs only as a labelled observation".into(),
             format!("vectors of >= 256 elements stored through the embedding slab or a lossy quantising mode are accepted within {TOL} relative L2 error; generated embeddings are structured (low tensor rank or sparse); unstructured dense ones run only as a labelled observation"),
             "_cache: keys are not compared (documented transient)".into(),
+            "the log of a log-backed store is not judged: after a crash the old log file is removed unread and the store is reopened from the snapshot path under a new empty log (durability and replay of the log are C02's subject)".into(),
             "the crash clause compares a post-crash load with what an uninterrupted save of the same state yields when loaded, so that a format's own round-trip losses are reported once, by the round-trip clause".into(),
             "in the quantising format a sparse vector that comes back as the dense vector of the same payload counts as an equal vector payload".into(),
         ]
